@@ -354,12 +354,14 @@ def freq_shift(z, /, shift):
 
     it = np.nditer(ft * len(x), flags=["multi_index"])
     for a in it:
+        # axes along which shift is broadcast (length 1) are zeroed entirely
+        mi = tuple(slice(None) if n == 1 else i for i, n in zip(it.multi_index, ft.shape))
         if a < 0:
             a = int(np.floor(a))
-            ix = (np.s_[a:],) + it.multi_index
+            ix = (np.s_[a:],) + mi
         else:
             a = int(np.ceil(a))
-            ix = (np.s_[:a],) + it.multi_index
+            ix = (np.s_[:a],) + mi
 
         x[ix] = 0
 
